@@ -103,13 +103,13 @@ def answerBody (kv : KV) : String :=
       let mutable := kv.getD "op" "" = "split_mut"
       let esz := match kind with | "u8" => 1 | "u64" => 8 | "w24" => 24 | "tr" => 8 | _ => 0
       match GA.MemBody.runViews mutable (if mutable then GA.Gen.SeqBody.splitMut else GA.Gen.SeqBody.splitRef) ⟨n, k, i⟩ with
-      | some [h, t] =>
+      | .views [h, t] =>
         if h.wr != mutable || t.wr != mutable then "res=wrong-mutability" else
         match readAt xs h.off h.len, readAt xs t.off t.len with
         | some a, some b => s!"res=ok offs={h.off * esz},{t.off * esz} lens={h.len},{t.len} out=[{sh a}]|[{sh b}]"
         | _, _ => "res=ub"
-      | some _ => "res=wrong-shape"
-      | none => "res=ub"
+      | .views _ => "res=wrong-shape"
+      | _ => "res=ub"
     | _ => "n/a"
 
 end GA.Drv.SeqE
